@@ -229,6 +229,9 @@ func (e *Engine) Commit(txn *Transaction) error {
 	// unset transaction
 	e.txn = nil
 
+	// no further writes
+	txn.finish()
+
 	// check if dirty
 	if !txn.Dirty() {
 		return nil
@@ -280,6 +283,9 @@ func (e *Engine) Abort(txn *Transaction) {
 
 	// unset transaction
 	e.txn = nil
+
+	// no further writes
+	txn.finish()
 
 	// release token
 	e.token.Release()
